@@ -113,7 +113,8 @@ def handle (line : Json) : Json :=
     | none => "accepted-although-no-key-verifies"
     | some k =>
       if ki.certs.contains k || ki.rsa == some k then
-        if policy cfg then "embedded-key-accepted-under-metadata-only-policy"
+        if !(boolD impl "restricted" true) then "embedded-key-used-by-unrestricted-xmlsec"
+        else if policy cfg then "embedded-key-accepted-under-metadata-only-policy"
         else if !bound.isEmpty then "fallback-although-metadata-has-keys"
         else "embedded-non-certificate-key-accepted"
       else "unbound-key-accepted"
